@@ -15,8 +15,8 @@ from .lib import HarnessError
 LEVEL = "proof"
 META = {
     "category": "proof",
-    "text": "Coq compiler-correctness theorem by simulation (unbounded: all programs of an explicit boolean fragment, all fuel): the model code generator (Compile.v: slot assignment + code generation mirroring resolve.go / compile.go construct by construct, with the real opcodes, operands and source positions) followed by the model stack machine (VM.v: small-step model of interp.go with frames, iterator stack, cells) observes exactly what a reference big-step evaluator over NAMES written from doc/spec.md (Ref.v) observes: effect trace with rendered argument values, final heap and globals, outcome and position of the failing operation. Fragment (in_fragment2, ProofsCompFrag.v; theorem codegen_correct_partial2, a superset of the first fragment in_fragment of codegen_correct_partial): all expressions except lambda -- including list and dict comprehensions with any number of for / if clauses, every kind of target, nested in each other, inside functions and at module level, their variables in block-local slots of the enclosing frame as the resolver assigns them -- under the guard that every use of a comprehension variable is dominated by the for clause binding it (a boolean on the syntax); all statements except load; defs with every kind of parameter, not nested and without captured variables. The FULL statement is refuted for the code as it is (codegen_correct_refuted: a comprehension re-evaluated in one activation sees stale variables -- exactly the shape the guard excludes: a clause reads a variable bound by a later clause), replayed on the real pipeline and recorded as known finding. The models are tied to /repo on every run: (a) lock-step control-flow comparison of the real compiler's bytecode (hook dump) with Compile.v's, insensitive to block layout; (b) VM.v executing the REAL bytecode against the real machine (trace, globals, outcome, failing position, ExecutionSteps); (c) Ref.v against the real pipeline on a hand-written corpus of the classic miscompilation patterns plus grammar-generated programs over the whole language x 16 option combinations; (d) Compile.v + VM.v end to end against the real pipeline.",
-    "note": "Trusted: Coq kernel + vm_compute; Ref.v is my reading of spec.md (comprehension variables are fresh per evaluation of the comprehension, closures capture cells); the built-in library (operators, built-in functions, argument binding) is an oracle shared by both sides of the theorem and modelled for execution in Values.v -- its own semantics are C10-C13; the theorem holds for any behaviour of those primitives; positions identify operations, messages are not compared; coverage of the generator is printed in the evidence. Outside the proved fragment (comprehensions reading a variable before the clause that binds it, closures / lambda, load) the claim rests on ties (a)-(d) only.",
+    "text": "Coq compiler-correctness theorem by simulation (unbounded: all programs of an explicit boolean fragment, all fuel): the model code generator (Compile.v: slot assignment + code generation mirroring resolve.go / compile.go construct by construct, with the real opcodes, operands and source positions) followed by the model stack machine (VM.v: small-step model of interp.go with frames, iterator stack, cells) observes exactly what a reference big-step evaluator over NAMES written from doc/spec.md (Ref.v) observes: effect trace with rendered argument values, final heap and globals, outcome and position of the failing operation. Fragment (in_fragment2, ProofsCompFrag.v; theorem codegen_correct_partial2, a superset of the first fragment in_fragment of codegen_correct_partial): all expressions except lambda -- including list and dict comprehensions with any number of for / if clauses, every kind of target, nested in each other, inside functions and at module level, their variables in block-local slots of the enclosing frame as the resolver assigns them -- under the guard that every use of a comprehension variable is dominated by the for clause binding it (a boolean on the syntax); all statements except load; defs with every kind of parameter, not nested and without captured variables (milestone 2). Closures (milestone 3, theorem codegen_correct_partial3 for the generator extended in CompileClos.v: cells for captured locals, free variables, MAKEFUNC with the combined defaults + freevars tuple, FREE / FREECELL / LOCALCELL / SETLOCALCELL as compile.go emits them and VM.v / interp.go execute them): the same equation for in_fragment3 (FragClos.v, a boolean; it contains in_fragment2: fragment3_contains_fragment2) = the fragment above plus lambda expressions and defs nested in defs / lambdas to any depth, capturing any number of parameters and locals of the enclosing functions, read and mutated through the closure, reassigned by the owner before or after the closure is made, passed on through intermediate functions -- under the guards: no shadowing of a captured name, lambda not inside a comprehension, free variables mentioned in the order the resolver numbers them, and the run-time condition that no function value with forged captured cells is entered (decided by the guarded machine VMClos.run_chk, which is the machine on every run in which its guard does not fire: guard_is_transparent; no primitive builds such a value, but the primitives are opaque in the proofs). The FULL statement is refuted for the code as it is (codegen_correct_refuted: a comprehension re-evaluated in one activation sees stale variables -- exactly the shape the guard excludes: a clause reads a variable bound by a later clause), replayed on the real pipeline and recorded as known finding. The models are tied to /repo on every run: (a) lock-step control-flow comparison of the real compiler's bytecode (hook dump) with Compile.v's, insensitive to block layout; (b) VM.v executing the REAL bytecode against the real machine (trace, globals, outcome, failing position, ExecutionSteps); (c) Ref.v against the real pipeline on a hand-written corpus of the classic miscompilation patterns plus grammar-generated programs over the whole language x 16 option combinations; (d) Compile.v + VM.v end to end against the real pipeline.",
+    "note": "Trusted: Coq kernel + vm_compute; Ref.v is my reading of spec.md (comprehension variables are fresh per evaluation of the comprehension, closures capture cells); the built-in library (operators, built-in functions, argument binding) is an oracle shared by both sides of the theorem and modelled for execution in Values.v -- its own semantics are C10-C13; the theorem holds for any behaviour of those primitives; positions identify operations, messages are not compared; coverage of the generator is printed in the evidence. Outside the proved fragments (comprehensions reading a variable before the clause that binds it, shadowed captured names, captured comprehension variables, lambda inside comprehensions, load) the claim rests on ties (a)-(d) only; ties (a) and (d) still use Compile.v (no closures), CompileClos.v is exercised by the Examples of Properties.v.",
     "technique": "Coq simulation proof (compiler correctness) + refutation witness by vm_compute + translation-validation style CFG comparison + differential execution",
 }
 
